@@ -8,7 +8,8 @@ Encs  == {"ISO-8859-5", "KOI8-R", "UTF-8"}
 Xmls  == {"none", "decl:ISO-8859-5", "decl:KOI8-R", "decl:UTF-8", "bom:utf-8", "bom:utf_16_le", "bom:utf_16_be", "bomdecl:utf-8:ISO-8859-5"}
 Rows  == {[kind |-> "info", mt |-> m, http |-> h, xml |-> x, meta |-> me, doc |-> d] :
               m \in MTs, h \in Encs \cup {"none"}, x \in Xmls, me \in Encs \cup {"none"}, d \in {"text", "bytes"}}
-         \cup {[kind |-> "sniff", xml |-> x, pos |-> p, doc |-> d, short |-> FALSE] : x \in Xmls, p \in {0, 3}, d \in {"text", "stream", "bytes"}}
+         \cup {[kind |-> "sniff", xml |-> x, pos |-> p, doc |-> d, short |-> FALSE, incdef |-> i] :
+                  x \in Xmls, p \in {0, 3}, d \in {"text", "stream", "bytes"}, i \in BOOLEAN}
          \cup {[kind |-> "mediatype", mt |-> m] : m \in MTs}
 Init == row \in Rows
 Next == UNCHANGED row
